@@ -50,13 +50,13 @@ class Clock:
 
 
 def gen_case(rng):
-    nfiles = rng.choice([1, 1, 2, 2, 3, 4, 5, 8])
+    nfiles = rng.choice([1, 1, 2, 2, 3, 4, 5, 8, 12])          # 12: extensions .10/.11 sort after .9 only in natural order
     files = []
     t = T0 + rng.randrange(0, 100000) * GRID
     uid = 0
     regs = [40001, 40002, 40003, 1, 10017]
     for fi in range(nfiles):
-        nrec = rng.choice([1, 1, 2, 3, 5, 8, 30]) if rng.random() < 0.8 else rng.randrange(1, 31)
+        nrec = (rng.choice([1, 1, 2, 3, 5, 8, 30]) if rng.random() < 0.8 else rng.randrange(1, 31)) if nfiles < 12 else rng.choice([1, 2, 3])
         lines = []
         for ri in range(nrec):
             if fi or ri:
